@@ -43,3 +43,84 @@ def map_grouped(fn_mod, fn_name, items, key, nproc=None, chunk=12):
             except BaseException as e:  # noqa: BLE001  (worker died)
                 errors.append((None, "worker died: " + repr(e), ""))
     return results, errors
+
+
+# ---------------------------------------------------------------------------------------------
+# isolated execution: a dead or hung worker is an observation (C13 interpreter_died / C19 terminates)
+def _iso_worker(conn, fn_mod, fn_name, items):
+    import importlib
+    fn = getattr(importlib.import_module(fn_mod), fn_name)
+    for idx, it in items:
+        conn.send(("start", idx, None))
+        try:
+            conn.send(("ok", idx, fn(*it)))
+        except BaseException as e:  # noqa: BLE001
+            conn.send(("err", idx, type(e).__name__ + ": " + str(e)[:300] + "\n" + traceback.format_exc()[-1200:]))
+    conn.send(("done", -1, None))
+    conn.close()
+
+
+def map_isolated(fn_mod, fn_name, items, key, nproc=None, chunk=10, timeout=180):
+    """Like map_grouped, but every item's fate is known: result | ("died", item) | ("timeout", item).
+
+    Returns dict idx -> ("ok", value) | ("err", msg) | ("died", None) | ("timeout", None)."""
+    import time
+    nproc = nproc or NPROC
+    groups = {}
+    for idx, it in enumerate(items):
+        groups.setdefault(key(it), []).append((idx, it))
+    queue = []
+    for k, its in groups.items():
+        for i in range(0, len(its), chunk):
+            queue.append(its[i:i + chunk])
+    queue.sort(key=lambda c: -len(c))
+    ctx = mp.get_context("fork")
+    out = {}
+    running = []      # [proc, conn, remaining(list), current_idx, t_start]
+    while queue or running:
+        while queue and len(running) < nproc:
+            its = queue.pop(0)
+            pc, cc = ctx.Pipe(duplex=False)
+            p = ctx.Process(target=_iso_worker, args=(cc, fn_mod, fn_name, its))
+            p.start()
+            cc.close()
+            running.append([p, pc, list(its), None, time.time()])
+        time.sleep(0.05)
+        for r in list(running):
+            p, conn, rem, cur, t0 = r
+            finished = False
+            try:
+                while conn.poll():
+                    st, idx, val = conn.recv()
+                    if st == "start":
+                        r[3], r[4] = idx, time.time()
+                    elif st in ("ok", "err"):
+                        out[idx] = (st, val)
+                        r[2] = [x for x in r[2] if x[0] != idx]
+                        r[3] = None
+                    elif st == "done":
+                        finished = True
+            except (EOFError, OSError):
+                finished = True
+            alive = p.is_alive()
+            if finished or not alive:
+                p.join(timeout=1)
+                if r[2]:
+                    # died while running r[3] (or before starting the next one)
+                    dead = r[3] if r[3] is not None else r[2][0][0]
+                    out[dead] = ("died", None)
+                    rest = [x for x in r[2] if x[0] != dead]
+                    if rest:
+                        queue.insert(0, rest)
+                running.remove(r)
+                conn.close()
+            elif r[3] is not None and time.time() - r[4] > timeout:
+                p.kill()
+                p.join(timeout=2)
+                out[r[3]] = ("timeout", None)
+                rest = [x for x in r[2] if x[0] != r[3]]
+                if rest:
+                    queue.insert(0, rest)
+                running.remove(r)
+                conn.close()
+    return out
